@@ -24,7 +24,7 @@ STAGES = {
     "counts": {"counts", "turns", "loops"},
     "flow": {"tunnels", "threads"},
     "functions": {"functions"},
-    "more": {"choice_tags", "typed_vars", "if_diverts"},
+    "more": {"choice_tags", "typed_vars", "if_diverts", "stitches"},
 }
 DEFAULT = set().union(*STAGES.values())
 
